@@ -138,6 +138,9 @@ type c06Conn struct {
 	log      []c06Ev // events in the order they were consumed (data events split as the reads split them)
 	eofArmed bool    // an armed read already returned EOF: the next armed read hits the deadline
 	closed   bool
+	written     []byte // what was written towards the client
+	closedWrite bool
+	usable      string // filled by c06RunTcpOpt: "" or what is wrong with the server->client direction
 	merge    bool // io.Reader style: the last data of the stream comes together with io.EOF (and, once
 	draining bool // the relay is draining, with the reset) in one Read call
 }
@@ -183,8 +186,12 @@ func (c *c06Conn) Read(p []byte) (int, error) {
 		}
 	}
 }
-func (c *c06Conn) Write(p []byte) (int, error)        { return len(p), nil }
-func (c *c06Conn) Close() error                       { c.closed = true; return nil }
+func (c *c06Conn) Write(p []byte) (int, error) {
+	c.written = append(c.written, p...)
+	return len(p), nil
+}
+func (c *c06Conn) CloseWrite() error { c.closedWrite = true; return nil }
+func (c *c06Conn) Close() error      { c.closed = true; return nil }
 func (c *c06Conn) LocalAddr() net.Addr                { return &net.TCPAddr{IP: net.IPv4(127, 0, 0, 1), Port: 1} }
 func (c *c06Conn) RemoteAddr() net.Addr               { return &net.TCPAddr{IP: net.IPv4(127, 0, 0, 1), Port: 2} }
 func (c *c06Conn) SetDeadline(t time.Time) error      { c.armed = !t.IsZero(); return nil }
@@ -258,6 +265,14 @@ func c06RunTcpOpt(script []c06Ev, drain string, async, merge bool, readSize int)
 			armed = "1"
 		}
 		derr := c06Err(cs.dataError)
+		// a second SniffTcp after a name was found answers from the cache and reads nothing
+		if err == nil && d != "" {
+			before := len(conn.log)
+			d2, err2 := cs.SniffTcp()
+			if d2 != d || err2 != nil || len(conn.log) != before {
+				conn.usable = fmt.Sprintf("second SniffTcp: %q %v (first %q), reads %d->%d", d2, err2, d, before, len(conn.log))
+			}
+		}
 		var relay []byte
 		var end error
 		if cs.dataError != nil {
@@ -292,6 +307,19 @@ func c06RunTcpOpt(script []c06Ev, drain string, async, merge bool, readSize int)
 			_, end = cs.CopyRelayRemainder(&w, p)
 			relay = append(relay, w.Bytes()...)
 		}
+		// the other direction and the half-close still work on the wrapped connection
+		if conn.usable == "" {
+			msg := []byte("HTTP/1.1 200 OK\r\n\r\nserver-to-client")
+			if n, werr := cs.Write(msg[:10]); n != 10 || werr != nil {
+				conn.usable = fmt.Sprintf("Write: %d %v", n, werr)
+			} else if n, rerr := cs.ReadFrom(bytes.NewReader(msg[10:])); int(n) != len(msg)-10 || rerr != nil {
+				conn.usable = fmt.Sprintf("ReadFrom: %d %v", n, rerr)
+			} else if !bytes.Equal(conn.written, msg) {
+				conn.usable = fmt.Sprintf("client received %q", conn.written)
+			} else if cerr := cs.CloseWrite(); cerr != nil || !conn.closedWrite {
+				conn.usable = fmt.Sprintf("CloseWrite: %v forwarded=%v", cerr, conn.closedWrite)
+			}
+		}
 		want, wantEnd := c06ClientBytes(orig)
 		intact := "0"
 		if bytes.Equal(relay, want) && c06Err(end) == wantEnd {
@@ -300,6 +328,12 @@ func c06RunTcpOpt(script []c06Ev, drain string, async, merge bool, readSize int)
 		return fmt.Sprintf("res=%s armed=%s relay=%s end=%s intact=%s # nm=%s buf=%d derr=%s", res, armed, c06Hex(relay), c06Err(end), intact, nm, len(buf), derr)
 	})
 	_ = cs.Close()
+	if conn.usable == "" && !conn.closed {
+		conn.usable = "Close did not close the wrapped connection"
+	}
+	if conn.usable != "" && !strings.HasPrefix(out, "crash:") {
+		out += " usable=" + strings.ReplaceAll(conn.usable, " ", "_")
+	}
 	// the op is the script as the reads saw it, followed by what was never consumed
 	evs := append(append([]c06Ev(nil), conn.log...), conn.script...)
 	toks := make([]string, 0, len(evs)+2)
@@ -480,6 +514,8 @@ func TestVerifC06(t *testing.T) {
 		st.Emit(op, out)
 		if strings.HasPrefix(out, "crash:") {
 			violation("panic in stream sniffer: %s  op: %.300s", out, op)
+		} else if u := c06Field(out, "usable"); u != out {
+			violation("sniffed connection not usable: %s  op: %.300s", u, op)
 		} else if c06Field(out, "intact") != "1" {
 			violation("relay bytes differ from what the client sent (or the stream ended differently): %.400s  op: %.400s", out, op)
 		}
